@@ -169,8 +169,15 @@ static void fresh(int lvl, int initsize)
 	ev_end();
 }
 
+/* the next element given to the array is JSON null (id 0, a NULL pointer): arrays hold nulls like any other value */
+static int null_next;
 static int new_elem(void)
 {
+	if (null_next)
+	{
+		null_next = 0;
+		return 0;
+	}
 	int id = next_id++;
 	if (id >= MAXN)
 	{
@@ -423,9 +430,9 @@ static int drive(int start, int nexec, int nops)
 			switch (vh_below(16))
 			{
 			/* now and then the call's first allocation request fails */
-			case 0: case 1: case 2: fault_k = vh_below(12) ? -2 : 0; do_add(); break;
-			case 3: case 4: case 5: fault_k = vh_below(12) ? -2 : 0; do_put(pick_idx()); break;
-			case 6: case 7: fault_k = vh_below(12) ? -2 : 0; do_insert(pick_idx()); break;
+			case 0: case 1: case 2: fault_k = vh_below(12) ? -2 : 0; null_next = vh_below(8) == 0; do_add(); break;
+			case 3: case 4: case 5: fault_k = vh_below(12) ? -2 : 0; null_next = vh_below(6) == 0; do_put(pick_idx()); break;
+			case 6: case 7: fault_k = vh_below(12) ? -2 : 0; null_next = vh_below(6) == 0; do_insert(pick_idx()); break;
 			case 8: case 9:
 			{
 				arg_t a = pick_idx(), c = {0, 0};
